@@ -264,7 +264,7 @@ func uvSpecs() []uvSpec {
 				// 1: Mode and the LogProb guard; K/2 = 0.2 and K/2 = 1: Gamma.Rand switches
 				return prod(pickT(th, set(shapeS, nb(1), nb(2), nb(0.4)), 0.1, 0.2, 1.5, 3, 10, 100, 1000))
 			},
-			mk: func(p []float64, src rand.Source) any { return distuv.Chi{K: p[0], Src: src} },
+			mk:       func(p []float64, src rand.Source) any { return distuv.Chi{K: p[0], Src: src} },
 			lo:       zero,
 			hi:       posInf,
 			momOrder: allMoments, sampler: "rej",
